@@ -1,0 +1,146 @@
+//go:build verif
+
+package kvstore
+
+// Contracts for TypedValue / TypedStore (property C06), read by the verification machinery in
+// /verif. Comment-only file.
+//
+// Ghost model of the underlying store: kvHas[k] (the key with byte content k exists) and kvVal[k]
+// (its bytes, as an abstract byte string). Codecs are uninterpreted pure functions:
+//   encOK(v), enc(v)   – the value encoder succeeds on v and yields enc(v)
+//   decOK(s), dec(s)   – the value decoder succeeds on s and yields dec(s)
+//   kencOK/kenc, kdecOK/kdec – likewise for TypedStore keys
+// Every store and codec call may fail: its error result is unconstrained, so one proof covers
+// every position at which a call can fail.
+
+/*@
+global kvHas StrSet
+global kvVal StrMap
+global computed U_V            -- what the compute callback of the current Compute call returned
+global computeFailed Bool
+global computeCalled Bool
+
+specfun encOK(v U_V) Bool
+specfun enc(v U_V) Str
+specfun decOK(s Str) Bool
+specfun dec(s Str) U_V
+specfun kencOK(k U_K) Bool
+specfun kenc(k U_K) Str
+specfun kdecOK(s Str) Bool
+specfun kdec(s Str) U_K
+-- v is a faithful image of the stored bytes s
+specfun agrees(v U_V, s Str) Bool = (encOK(v) && enc(v) == s) || (decOK(s) && dec(s) == v)
+
+global-invariant truePtr && !falsePtr
+
+-- the underlying store
+func KVStore.Get(recv, key) (value, err)
+  ensures err == nil ==> sel(kvHas, content(key)) && content(value) == sel(kvVal, content(key))
+  ensures is(err, ErrKeyNotFound) ==> !sel(kvHas, content(key))
+func KVStore.Has(recv, key) (r, err)
+  ensures err == nil ==> (r <==> sel(kvHas, content(key)))
+func KVStore.Set(recv, key, value) (err)
+  modifies ghost(kvHas), ghost(kvVal)
+  ensures err == nil ==> kvHas == upd(old(kvHas), content(key), true) && kvVal == upd(old(kvVal), content(key), content(value))
+  ensures err != nil ==> kvHas == old(kvHas) && kvVal == old(kvVal)
+func KVStore.Delete(recv, key) (err)
+  modifies ghost(kvHas), ghost(kvVal)
+  ensures err == nil ==> kvHas == upd(old(kvHas), content(key), false)
+  ensures err == nil ==> forall k Str :: k != content(key) ==> sel(kvVal, k) == sel(old(kvVal), k)
+  ensures err != nil ==> kvHas == old(kvHas) && kvVal == old(kvVal)
+
+type TypedValue
+  callback vToBytes(v) (b, err)
+    ensures err == nil <==> encOK(v)
+    ensures err == nil ==> content(b) == enc(v)
+  callback bytesToV(b) (v, n, err)
+    ensures err == nil <==> decOK(content(b))
+    ensures err == nil ==> v == dec(content(b))
+  monitor mutex guards valueCached, hasCached, global:kvHas, global:kvVal
+  invariant truePtr && !falsePtr
+  invariant self.hasCached != nil ==> (*self.hasCached <==> sel(kvHas, content(self.keyBytes)))
+  invariant self.valueCached != nil ==> sel(kvHas, content(self.keyBytes)) && agrees(*self.valueCached, sel(kvVal, content(self.keyBytes)))
+  invariant self.valueCached != nil ==> self.hasCached != nil
+
+func TypedValue.cachedValue
+  requires t != nil && rheld(t.mutex)
+  ensures r1 <==> t.valueCached != nil
+  ensures r1 ==> r0 == *t.valueCached
+
+-- monitor proofs: lock discipline (guarded-by, no re-entrant acquisition) and the cache/store
+-- invariant at every release, under arbitrary interference between critical sections
+func TypedValue.Get
+  requires t != nil && t.kv != nil && unlocked(t.mutex)
+  modifies t.valueCached, t.hasCached, ghost(kvHas), ghost(kvVal)
+  ensures unlocked(t.mutex)
+func TypedValue.Has
+  requires t != nil && t.kv != nil && unlocked(t.mutex)
+  modifies t.valueCached, t.hasCached, ghost(kvHas), ghost(kvVal)
+  ensures unlocked(t.mutex)
+func TypedValue.Set
+  requires t != nil && t.kv != nil && unlocked(t.mutex)
+  modifies t.valueCached, t.hasCached, ghost(kvHas), ghost(kvVal)
+  ensures unlocked(t.mutex)
+func TypedValue.Delete
+  requires t != nil && t.kv != nil && unlocked(t.mutex)
+  modifies t.valueCached, t.hasCached, ghost(kvHas), ghost(kvVal)
+  ensures unlocked(t.mutex)
+func TypedValue.Compute
+  requires t != nil && t.kv != nil && unlocked(t.mutex)
+  callback computeFunc(cur, ex) (nv, cerr)
+  modifies t.valueCached, t.hasCached, ghost(kvHas), ghost(kvVal)
+  ensures unlocked(t.mutex)
+
+-- sequential proofs: the functional statement (results equal those of the raw key under the
+-- codec; stored bytes are the encoding of the last successfully written value; every failure is
+-- reported and leaves store and cache unchanged). k abbreviates content(t.keyBytes).
+func TypedValue.Get#sequential
+  opt sequential
+  requires t != nil && t.kv != nil && unlocked(t.mutex)
+  modifies t.valueCached, t.hasCached
+  ensures err == nil ==> sel(kvHas, content(t.keyBytes)) && agrees(value, sel(kvVal, content(t.keyBytes)))
+  ensures !sel(kvHas, content(t.keyBytes)) ==> err != nil
+  ensures kvHas == old(kvHas) && kvVal == old(kvVal)
+  ensures err != nil ==> t.valueCached == old(t.valueCached)
+
+func TypedValue.Has#sequential
+  opt sequential
+  requires t != nil && t.kv != nil && unlocked(t.mutex)
+  modifies t.valueCached, t.hasCached
+  ensures err == nil ==> (has <==> sel(kvHas, content(t.keyBytes)))
+  ensures kvHas == old(kvHas) && kvVal == old(kvVal)
+  ensures t.valueCached == old(t.valueCached)
+  ensures err != nil ==> t.hasCached == old(t.hasCached)
+
+func TypedValue.Set#sequential
+  opt sequential
+  requires t != nil && t.kv != nil && unlocked(t.mutex)
+  modifies t.valueCached, t.hasCached, ghost(kvHas), ghost(kvVal)
+  ensures r0 == nil ==> encOK(value) && kvHas == upd(old(kvHas), content(t.keyBytes), true) && kvVal == upd(old(kvVal), content(t.keyBytes), enc(value))
+  ensures r0 == nil ==> t.valueCached != nil && *t.valueCached == value
+  ensures r0 != nil ==> kvHas == old(kvHas) && kvVal == old(kvVal) && t.valueCached == old(t.valueCached) && t.hasCached == old(t.hasCached)
+
+func TypedValue.Delete#sequential
+  opt sequential
+  requires t != nil && t.kv != nil && unlocked(t.mutex)
+  modifies t.valueCached, t.hasCached, ghost(kvHas), ghost(kvVal)
+  ensures err == nil ==> kvHas == upd(old(kvHas), content(t.keyBytes), false) && t.valueCached == nil
+  ensures err != nil ==> kvHas == old(kvHas) && kvVal == old(kvVal) && t.valueCached == old(t.valueCached) && t.hasCached == old(t.hasCached)
+
+func TypedValue.Compute#sequential
+  opt sequential
+  requires t != nil && t.kv != nil && unlocked(t.mutex)
+  callback computeFunc(cur, ex) (nv, cerr)
+    ensures ex <==> sel(kvHas, content(t.keyBytes))
+    ensures ex ==> agrees(cur, sel(kvVal, content(t.keyBytes)))
+    ghost at return: computed = nv
+    ghost at return: computeFailed = (cerr != nil)
+    ghost at return: computeCalled = true
+  modifies t.valueCached, t.hasCached, ghost(kvHas), ghost(kvVal), ghost(computed), ghost(computeFailed), ghost(computeCalled)
+  -- a successful, changing Compute stores exactly the encoding of the computed value, for this key only
+  ensures err == nil && (kvHas != old(kvHas) || kvVal != old(kvVal)) ==> computeCalled && !computeFailed && encOK(computed) && newValue == computed && kvHas == upd(old(kvHas), content(t.keyBytes), true) && kvVal == upd(old(kvVal), content(t.keyBytes), enc(computed))
+  -- every failure is reported and leaves store and cache unchanged
+  ensures err != nil ==> kvHas == old(kvHas) && kvVal == old(kvVal) && t.valueCached == old(t.valueCached) && t.hasCached == old(t.hasCached)
+  -- a computed value that cannot be encoded is a failure
+  ensures computeCalled && !computeFailed && !encOK(computed) ==> err != nil
+@*/
